@@ -110,6 +110,11 @@ class Block:
         if self.kind == "normal":
             self.loc = np.asarray(spec["loc"], dtype=float)
             self.scale = np.asarray(spec["scale"], dtype=float)
+        elif self.kind == "gamma_raw":
+            # x ~ Gamma(conc, rate) on the positive half line, no transform: outside the support
+            # the density is not defined (nan), which ends a reference trajectory as not finite
+            self.conc = np.asarray(spec["conc"], dtype=float)
+            self.rate = np.asarray(spec["rate"], dtype=float)
         elif self.kind == "gamma":
             # z = exp(x) ~ Gamma(conc, rate); density of x includes the Jacobian dz/dx = exp(x)
             self.conc = np.asarray(spec["conc"], dtype=float)
@@ -127,6 +132,11 @@ class Block:
         if self.kind == "normal":
             r = (x - self.loc) / self.scale
             return float(np.sum(-0.5 * r * r - np.log(self.scale) - 0.5 * _LOG2PI))
+        if self.kind == "gamma_raw":
+            if not np.all(x > 0):
+                return float("nan")
+            lg = np.array([math.lgamma(a) for a in self.conc])
+            return float(np.sum(self.conc * np.log(self.rate) - lg + (self.conc - 1.0) * np.log(x) - self.rate * x))
         if self.kind == "gamma":
             lg = np.array([math.lgamma(a) for a in self.conc])
             return float(np.sum(self.conc * np.log(self.rate) - lg + self.conc * x - self.rate * np.exp(x)))
@@ -136,6 +146,10 @@ class Block:
     def grad(self, x):
         if self.kind == "normal":
             return -(x - self.loc) / (self.scale * self.scale)
+        if self.kind == "gamma_raw":
+            if not np.all(x > 0):
+                return np.full(self.n, np.nan)
+            return (self.conc - 1.0) / x - self.rate
         if self.kind == "gamma":
             return self.conc - self.rate * np.exp(x)
         return -self.prec @ (x - self.loc)
